@@ -192,6 +192,7 @@ class Symex:
         self._modconst = {}
         self.fresh_n = 0
         self.on_start = None
+        self.oracle = None          # callable(sx, atom) -> bool | None: decides atoms over the scenario's value domain
 
     # ------------------------------------------------------------------ driving
     def run(self, ref, make_args, self_obj=None):
@@ -806,6 +807,8 @@ class Symex:
                 except TypeError:
                     self.unsupported(node)
             return t_or(*[self.compare("==", x, e, node) for e in elems])
+        if coll is None or is_num(coll) or isinstance(coll, bool):
+            raise Raised("TypeError", None, node)     # ``x in None`` / ``x in 3`` is a TypeError in Python
         self.unsupported(node, f"membership in {type(coll).__name__}")
 
     def ev(self, n):
@@ -1167,6 +1170,11 @@ class Symex:
             if name == "__floor__":
                 import math
                 return math.floor(recv)
+            if name in self.hooks and callable(self.hooks[name]):
+                # a modelled method (e.g. sympy's ``expand``) on a value the scenario represents by a number
+                r = self.hooks[name](self, [recv] + list(args), kw)
+                if r is not NotImplemented:
+                    return r
         v = self.getattr(recv, name, node)
         return self.call_value(v, args, kw, node)
 
@@ -1320,7 +1328,9 @@ class Symex:
                     a = [f.bound] + a
                 frame = self.bind(fn, a, kw)
             self.frames, self.module = list(f.frames) + [frame], f.module
-            is_gen = any(isinstance(x, (ast.Yield, ast.YieldFrom)) for x in _walk_noscope(fn))
+            is_gen = getattr(fn, "_sx_is_gen", None)
+            if is_gen is None:   # cached on the node: the walk dominates the cost of small inlined helpers
+                is_gen = fn._sx_is_gen = any(isinstance(x, (ast.Yield, ast.YieldFrom)) for x in _walk_noscope(fn))
             try:
                 self.block(fn.body)
                 r = None
@@ -1399,6 +1409,11 @@ class Symex:
             for x in (self.iterate(args[0], node) if args else []):
                 c[x] = c.get(x, 0) + 1
             return c
+        if name == "dict.fromkeys" and 1 <= len(args) <= 2 and not kw and not isinstance(args[0], (T, Obj)):
+            try:
+                return {k: (args[1] if len(args) > 1 else None) for k in self.iterate(args[0], node)}
+            except TypeError:
+                self.unsupported(node, "dict.fromkeys with unhashable keys")
         if name == "defaultdict" and not args[1:]:
             return _DefaultDict(args[0] if args else None, self, node)
         if name in _BUILTINS:
